@@ -726,6 +726,11 @@ func (e *Engine) builtin(s *State, f *Frame, name string, args []Value, call ssa
 		return nil
 	case "print", "println":
 		return nil
+	case "ssa:wrapnilchk":
+		if p, ok := args[0].(Ptr); ok && p.Obj == 0 {
+			e.fail(s, "nil-deref", "value method called through nil pointer")
+		}
+		return args[0]
 	case "panic":
 		e.fail(s, "panic", "panic")
 	case "recover":
